@@ -159,6 +159,9 @@ void h_step2(void)
             __CPROVER_assume(bd >= 3 && bs >= 3 && bd <= SIZE_MAX / 2 && bs <= SIZE_MAX / 2);
             vf_chain_make(&d, kd, bd);
             vf_chain_make(&s, ks, bs);
+#if VF_STEP2 == 2
+            s.l.off = 24;            /* lists of different element layouts: swap exchanges the offsets too */
+#endif
 #if VF_STEP2 == 1
             cstl_slist_concat(&d.l, &s.l);
             vf_chain_inner(&d); vf_chain_inner(&s);
@@ -180,7 +183,7 @@ void h_step2(void)
             vf_chain_inner(&d); vf_chain_inner(&s);
             vf_chain_under(&s, &d.l, s.count);
             vf_chain_under(&d, &s.l, d.count);
-            VF_ASSERT(d.l.off == 8 && s.l.off == 8, "swap: offsets exchanged");
+            VF_ASSERT(d.l.off == 24 && s.l.off == 8, "swap: offsets exchanged");
 #endif
             VF_REACH(kd == 3 && ks == 3, "largest neighbourhood reached");
         }
@@ -192,7 +195,7 @@ void h_step2(void)
 /* ------------------------------------------------------------------ B: reference-sequence checks */
 static int vf_cmp_key(const void * a, const void * b, void * p)
 {
-    (void)p;
+    VF_ASSERT(p == VF_CMP_PRIV, "the comparison function is handed the caller's private pointer");
     return vf_signmag(((const struct vf_el *)a)->key > ((const struct vf_el *)b)->key, ((const struct vf_el *)a)->key < ((const struct vf_el *)b)->key);
 }
 
@@ -476,7 +479,7 @@ void h_b_sort(void)
             VF_SCEN(len > 1);
             vf_build(&l, ref, len, 0);
             for (k = 0; k < len; k++) { vf_pool[k].key = c % 3; c /= 3; }
-            cstl_slist_sort(&l, vf_cmp_key, NULL);
+            cstl_slist_sort(&l, vf_cmp_key, VF_CMP_PRIV);
             /* reference: stable sort of the ids by key (ordered, ties keep their original order, same elements) */
             for (j = 0; j < 3; j++) for (k = 0; k < len; k++) if (vf_pool[k].key == j) ref[n++] = k;
             vf_check_list(&l, ref, len, "sort: ordered, stable permutation of the same elements");
